@@ -120,9 +120,11 @@ impl BoxedUint {
     /// integers).
     #[inline]
     pub fn from_words(words: impl IntoIterator<Item = Word>) -> Self {
-        Self {
-            limbs: words.into_iter().map(Into::into).collect(),
-        }
+        words
+            .into_iter()
+            .map(Into::into)
+            .collect::<Vec<Limb>>()
+            .into()
     }
 
     /// Create a boxed slice of [`Word`]s (i.e. word-sized unsigned integers) from
